@@ -514,6 +514,7 @@ Proof.
   - apply Inv_edit. exact HI.
   - exact HI.
   - rewrite exec_svc by exact HI. apply Inv_do_sevs. exact HI.
+  - exact HI.
 Qed.
 
 Lemma Inv_run h : forall s, Inv s -> Inv (run s h).
@@ -537,6 +538,7 @@ Proof.
     destruct (update_ctx s0 a); [|discriminate]. cbv zeta. destruct (0 <? e_lh a); discriminate.
   - discriminate.
   - change (fst (exec s (now, OSvc evs)) <> Abort). rewrite exec_svc by exact HI. discriminate.
+  - discriminate.
 Qed.
 
 (** ** Batch counters: every stored key is below the current batch (or equal to it once the
@@ -778,6 +780,7 @@ Proof.
   - apply Keys_edit; assumption.
   - exact HK.
   - rewrite exec_svc by exact HI. apply Keys_do_sevs; assumption.
+  - exact HK.
 Qed.
 
 Lemma Keys_run h : forall s, Inv s -> KeysInv s -> run_wfb s h = true -> KeysInv (run s h).
@@ -961,6 +964,7 @@ Proof.
   - split; assumption.
   - change (ledger_ok (snd (exec s (now, OSvc evs))) name (ledger_sevs s now name evs L)).
     rewrite exec_svc by exact HI. cbn [snd]. apply ledger_sevs_ok; try assumption. split; assumption.
+  - split; assumption.
 Qed.
 
 Lemma ledger_run_ok h : forall s name L,
@@ -1090,6 +1094,7 @@ Proof.
   - change (exists f', get name (feeds (snd (exec s (now, OSvc evs)))) = Some f' /\ same_identity f f').
     rewrite exec_svc by exact HI. cbn [snd]. rewrite do_sevs_feeds by exact HI.
     exists f. repeat split; assumption.
+  - exists f. repeat split; assumption.
 Qed.
 
 Lemma feed_identity_run h : forall s name f, Inv s -> get name (feeds s) = Some f ->
@@ -1162,6 +1167,7 @@ Proof.
   - apply edit_values.
   - reflexivity.
   - exact I.
+  - reflexivity.
 Qed.
 
 Lemma sev_other_than_completion_lemma :
@@ -1319,6 +1325,7 @@ Proof.
   - exact Hf.
   - change (get name (feeds (snd (exec s (now, OSvc evs)))) = Some f).
     rewrite exec_svc by exact HI. cbn [snd]. rewrite do_sevs_feeds by exact HI. exact Hf.
+  - exact Hf.
 Qed.
 
 Lemma ledger_sevs_closed now name f evs : forall s all k,
@@ -1404,3 +1411,64 @@ Proof.
   rewrite <- surjective_pairing in E. rewrite E in Hq. rewrite E. cbn [fst snd] in *.
   exists new. split; [reflexivity|]. split; [exact Hq|]. rewrite run_app. exact Hf2.
 Qed.
+
+(** ** The oracle price service (keeper.ModuleServiceRequest) *)
+
+(** the window of the ledger is at least 1 as soon as a value has been produced *)
+Definition window_pos (L : ledger) : Prop := 0 <= snd L /\ (fst L <> [] -> 1 <= snd L).
+
+Lemma ledger_sev_pos s now name e L : Inv s -> window_pos L -> window_pos (ledger_sev s now name e L).
+Proof.
+  intros HI [H0 H1]. destruct e as [c|c bc bthr outs tol|c]; try (split; assumption). unfold ledger_sev.
+  destruct (get c (ctxs s)) as [x|]; [|split; assumption].
+  destruct (feed_by_ctx s c) as [[n f]|] eqn:Hfb; [|split; assumption].
+  destruct ((n =? name) && (x_bthr x <=? Z.of_nat (length outs))); [|split; assumption].
+  destruct (feed_by_ctx_spec s c n f HI Hfb) as [Hf _]. destruct (inv_feed s HI _ _ Hf) as (_ & Hlh & _).
+  split; cbn [fst snd]; [lia|intros _; lia].
+Qed.
+
+Lemma ledger_sevs_pos now name evs : forall s L, Inv s -> window_pos L -> window_pos (ledger_sevs s now name evs L).
+Proof.
+  induction evs as [|e evs IH]; intros s L HI HP; simpl; [exact HP|].
+  apply IH; [apply Inv_do_sev; exact HI|apply ledger_sev_pos; assumption].
+Qed.
+
+Lemma ledger_step_pos s st name L : Inv s -> window_pos L -> window_pos (ledger_step s st name L).
+Proof.
+  intros HI HP. unfold ledger_step. destruct st as [now o]. cbn [snd fst]. destruct o; try exact HP.
+  - destruct (edit_applies s a name) eqn:Ea; [|exact HP]. unfold edit_applies in Ea.
+    apply andb_prop in Ea. destruct Ea as [Ea _]. apply andb_prop in Ea. destruct Ea as [_ Hpos].
+    destruct HP as [H0 H1]. split; cbn [fst snd]; [lia|intros Hne; specialize (H1 Hne); lia].
+  - apply ledger_sevs_pos; assumption.
+Qed.
+
+Lemma ledger_run_pos h : forall s name L, Inv s -> window_pos L -> window_pos (ledger_run s h name L).
+Proof.
+  induction h as [|st h IH]; intros s name L HI HP; simpl; [exact HP|].
+  apply IH; [apply Inv_exec; exact HI|apply ledger_step_pos; assumption].
+Qed.
+
+(** the price service answers from the newest value ever produced for the feed: 400 if the feed
+    does not exist, 401 if no batch ever met its threshold, 402 if that newest value is older than
+    5 minutes of block time, else 200 with exactly that value *)
+Lemma price_service_lemma :
+  forall (h : list step) (name now : Z),
+    run_wfb init h = true ->
+    let s := run init h in
+    let L := ledger_run init h name ([], 0) in
+    price_request s now name = price_answer (has name (feeds s)) (fst L) now
+    /\ price_request s now name = price_answer (has name (feeds s)) (query_values s name) now.
+Proof.
+  intros h name now Hwf s L. split; [|reflexivity].
+  destruct (keeps_newest_latest_history_lemma h name Hwf) as (Hq & _). fold s L in Hq.
+  assert (HP : window_pos L).
+  { apply ledger_run_pos; [exact Inv_init|]. split; cbn [fst snd]; [lia|intros E; exfalso; apply E; reflexivity]. }
+  unfold price_request. rewrite Hq. unfold price_answer. destruct (negb (has name (feeds s))); [reflexivity|].
+  destruct (fst L) as [|[d ts] r] eqn:E; [rewrite firstn_nil; reflexivity|].
+  destruct HP as [_ H1]. assert (1 <= snd L) by (apply H1; rewrite E; intros E'; discriminate E').
+  replace (Z.to_nat (snd L)) with (S (Z.to_nat (snd L - 1))) by lia. reflexivity.
+Qed.
+
+(** the price service does not change the state *)
+Lemma price_is_a_read s now name code data : exec s (now, OPrice name code data) = (Ok, s).
+Proof. reflexivity. Qed.
